@@ -92,8 +92,12 @@ def jobs(tier):
     out = []
     langs = ['java', 'kotlin'] if tier == 'quick' else U.LANGS
     for lang in langs:
-        for unit in ['gen_variable', 'gen_assignment', 'gen_conditional', 'gen_new', 'gen_variable_decl', 'generate_expr']:
-            extra = dict(nvars=0, with_nested=False) if unit == 'generate_expr' else dict(nvars=1, with_nested=(tier != 'quick'))
+        for unit in ['gen_variable', 'gen_assignment', 'gen_conditional', 'gen_new', 'gen_variable_decl', 'generate_expr', 'gen_field_access',
+             'gen_func_call']:
+            extra = dict(nvars=0, with_nested=False) if unit in ('generate_expr', 'gen_func_call', 'gen_field_access') \
+                else dict(nvars=1, with_nested=(tier != 'quick'))
+            if unit == 'gen_func_call':
+                extra['sym_draws'] = 3 if tier == 'quick' else 5
             out.append(Job('%s-%s' % (unit, lang), U.harness,
                            dict(lang=lang, unit=unit, aspect=ASPECT, max_depth=2, sym_depth=True, **extra),
                            split_depth=6, functions=U.FUNCS[unit], stubs=U.STUBS, require_events=['unit:%s' % unit],
